@@ -1,8 +1,584 @@
-import RaptorModel.Model.Sparse
+import RaptorModel.Lemmas.SparseLemmas
+/-!
+# C07 — every sparse-format operation preserves the dense image
+
+`A.den i j` is the sum of the values stored at `(i, j)`: the operator a sparse structure
+represents. The theorems below state, for the very functions of `RaptorModel/Model/Sparse.lean`,
+for every scalar type that is a commutative additive monoid (group for `subtract`), for all sizes
+and all `i j : Nat`, that conversions, transposes, sorts, `move_diag`, `remove_duplicates`, `add`
+and `subtract` compute the expected dense image. Helper lemmas are in
+`RaptorModel/Lemmas/SparseLemmas.lean`.
+
+Hypotheses are the weakest that make each statement true; where `WF` is assumed it is because
+`bucket n` silently drops entries whose key is `≥ n` (see `cooToCsr_drops_out_of_range`).
+-/
 namespace Raptor.C07
 open Raptor.Sparse
 
-theorem placeholder_dims_cooToCsr {K : Type} (A : Coo K) :
+variable {K : Type}
+
+/-! ## 1. conversions -/
+
+section Conversions
+
+theorem dims_cooToCsr (A : Coo K) :
     (cooToCsr A).nRows = A.nRows ∧ (cooToCsr A).nCols = A.nCols := ⟨rfl, rfl⟩
+theorem dims_cooToCsc (A : Coo K) :
+    (cooToCsc A).nRows = A.nRows ∧ (cooToCsc A).nCols = A.nCols := ⟨rfl, rfl⟩
+theorem dims_csrToCoo (A : Csr K) :
+    (csrToCoo A).nRows = A.nRows ∧ (csrToCoo A).nCols = A.nCols := ⟨rfl, rfl⟩
+theorem dims_cscToCoo (A : Csc K) :
+    (cscToCoo A).nRows = A.nRows ∧ (cscToCoo A).nCols = A.nCols := ⟨rfl, rfl⟩
+theorem dims_csrToCsc (A : Csr K) :
+    (csrToCsc A).nRows = A.nRows ∧ (csrToCsc A).nCols = A.nCols := ⟨rfl, rfl⟩
+theorem dims_cscToCsr (A : Csc K) :
+    (cscToCsr A).nRows = A.nRows ∧ (cscToCsr A).nCols = A.nCols := ⟨rfl, rfl⟩
+
+theorem den_cooToCsr [AddCommMonoid K] (A : Coo K) (h : A.WF = true) (i j : Nat) :
+    (cooToCsr A).den i j = A.den i j := by
+  rw [Csr.den_eq]
+  exact denE_bucketRows A.nRows A.ents (fun e he => (Coo.WF_iff.mp h e he).1) i j
+
+theorem wf_cooToCsr (A : Coo K) (h : A.WF = true) : (cooToCsr A).WF = true := by
+  rw [Csr.WF_iff]
+  refine ⟨bucket_length _ _, bucket_all_lt ?_⟩
+  intro x hx
+  obtain ⟨e, he, rfl⟩ := List.mem_map.mp hx
+  exact (Coo.WF_iff.mp h e he).2
+
+theorem den_cooToCsc [AddCommMonoid K] (A : Coo K) (h : A.WF = true) (i j : Nat) :
+    (cooToCsc A).den i j = A.den i j := by
+  rw [Csc.den_eq]
+  exact denE_bucketCols A.nCols A.ents (fun e he => (Coo.WF_iff.mp h e he).2) i j
+
+theorem wf_cooToCsc (A : Coo K) (h : A.WF = true) : (cooToCsc A).WF = true := by
+  rw [Csc.WF_iff]
+  refine ⟨bucket_length _ _, bucket_all_lt ?_⟩
+  intro x hx
+  obtain ⟨e, he, rfl⟩ := List.mem_map.mp hx
+  exact (Coo.WF_iff.mp h e he).1
+
+/-- definitional: the COO entries are the CSR entries in storage order -/
+theorem den_csrToCoo [AddCommMonoid K] (A : Csr K) (i j : Nat) : (csrToCoo A).den i j = A.den i j := rfl
+
+theorem wf_csrToCoo (A : Csr K) (h : A.WF = true) : (csrToCoo A).WF = true :=
+  Coo.WF_iff.mpr fun _ he => Csr.entries_lt h he
+
+/-- definitional -/
+theorem den_cscToCoo [AddCommMonoid K] (A : Csc K) (i j : Nat) : (cscToCoo A).den i j = A.den i j := rfl
+
+theorem wf_cscToCoo (A : Csc K) (h : A.WF = true) : (cscToCoo A).WF = true :=
+  Coo.WF_iff.mpr fun _ he => Csc.entries_lt h he
+
+theorem den_csrToCsc [AddCommMonoid K] (A : Csr K) (h : A.WF = true) (i j : Nat) :
+    (csrToCsc A).den i j = A.den i j := by
+  rw [Csc.den_eq]
+  exact denE_bucketCols A.nCols A.entries (fun e he => (Csr.entries_lt h he).2) i j
+
+theorem wf_csrToCsc (A : Csr K) (h : A.WF = true) : (csrToCsc A).WF = true := by
+  rw [Csc.WF_iff]
+  refine ⟨bucket_length _ _, bucket_all_lt ?_⟩
+  intro x hx
+  obtain ⟨e, he, rfl⟩ := List.mem_map.mp hx
+  exact (Csr.entries_lt h he).1
+
+theorem den_cscToCsr [AddCommMonoid K] (A : Csc K) (h : A.WF = true) (i j : Nat) :
+    (cscToCsr A).den i j = A.den i j := by
+  rw [Csr.den_eq]
+  exact denE_bucketRows A.nRows A.entries (fun e he => (Csc.entries_lt h he).1) i j
+
+theorem wf_cscToCsr (A : Csc K) (h : A.WF = true) : (cscToCsr A).WF = true := by
+  rw [Csr.WF_iff]
+  refine ⟨bucket_length _ _, bucket_all_lt ?_⟩
+  intro x hx
+  obtain ⟨e, he, rfl⟩ := List.mem_map.mp hx
+  exact (Csc.entries_lt h he).2
+
+end Conversions
+
+/-- the hypotheses are satisfiable on a matrix with a duplicate and an empty row -/
+example : (⟨3, 2, [(2, 1, 5), (0, 0, 1), (0, 1, -2), (0, 0, 3)]⟩ : Coo Int).WF = true := by decide
+example : cooToCsr (⟨3, 2, [(2, 1, 5), (0, 0, 1), (0, 1, -2), (0, 0, 3)]⟩ : Coo Int)
+    = ⟨3, 2, [[(0, 1), (1, -2), (0, 3)], [], [(1, 5)]]⟩ := by decide
+/-- `WF` cannot be dropped: an entry whose row is out of range is silently lost by `cooToCsr` -/
+theorem cooToCsr_drops_out_of_range :
+    (cooToCsr (⟨1, 1, [(1, 0, 7)]⟩ : Coo Int)).den 1 0 = 0 ∧
+    (⟨1, 1, [(1, 0, 7)]⟩ : Coo Int).den 1 0 = 7 := by decide
+
+/-! ## 2. transposes -/
+
+section Transposes
+
+theorem dims_transpose_coo (A : Coo K) :
+    (A.transpose).nRows = A.nCols ∧ (A.transpose).nCols = A.nRows := ⟨rfl, rfl⟩
+theorem dims_transpose_csr (A : Csr K) :
+    (A.transpose).nRows = A.nCols ∧ (A.transpose).nCols = A.nRows := ⟨rfl, rfl⟩
+theorem dims_transpose_csc (A : Csc K) :
+    (A.transpose).nRows = A.nCols ∧ (A.transpose).nCols = A.nRows := ⟨rfl, rfl⟩
+
+theorem den_transpose_coo [AddCommMonoid K] (A : Coo K) (i j : Nat) : (A.transpose).den i j = A.den j i :=
+  denE_map_swapE A.ents i j
+
+theorem wf_transpose_coo (A : Coo K) (h : A.WF = true) : (A.transpose).WF = true := by
+  rw [Coo.WF_iff] at h ⊢
+  intro e he
+  obtain ⟨e', he', rfl⟩ := List.mem_map.mp he
+  exact ⟨(h e' he').2, (h e' he').1⟩
+
+theorem den_transpose_csr [AddCommMonoid K] (A : Csr K) (h : A.WF = true) (i j : Nat) :
+    (A.transpose).den i j = A.den j i := by
+  have hB : (⟨A.nCols, A.nRows, A.rows⟩ : Csc K).WF = true := h
+  unfold Csr.transpose
+  rw [den_cscToCsr _ hB, Csc.den_eq, Csr.den_eq]
+
+theorem wf_transpose_csr (A : Csr K) (h : A.WF = true) : (A.transpose).WF = true :=
+  wf_cscToCsr (⟨A.nCols, A.nRows, A.rows⟩ : Csc K) h
+
+theorem den_transpose_csc [AddCommMonoid K] (A : Csc K) (h : A.WF = true) (i j : Nat) :
+    (A.transpose).den i j = A.den j i := by
+  have hB : (⟨A.nCols, A.nRows, A.cols⟩ : Csr K).WF = true := h
+  unfold Csc.transpose
+  rw [den_csrToCsc _ hB, Csr.den_eq, Csc.den_eq]
+
+theorem wf_transpose_csc (A : Csc K) (h : A.WF = true) : (A.transpose).WF = true :=
+  wf_csrToCsc (⟨A.nCols, A.nRows, A.cols⟩ : Csr K) h
+
+end Transposes
+
+/-! ## 3. sorting -/
+
+section Sorting
+
+/-- `sortBy` only permutes its input -/
+theorem perm_sortBy {α : Type} (key : α → Nat) (l : List α) : (sortBy key l).Perm l :=
+  sortBy_perm key l
+
+/-- the result of `sortBy` is sorted by key -/
+theorem sortBy_sorted {α : Type} (key : α → Nat) (l : List α) :
+    (sortBy key l).Pairwise (fun a b => key a ≤ key b) := sortBy_pairwise key l
+
+theorem dims_sort_csr (A : Csr K) :
+    (A.sort).nRows = A.nRows ∧ (A.sort).nCols = A.nCols ∧ (A.sort).rows.length = A.rows.length :=
+  ⟨rfl, rfl, List.length_map _⟩
+
+theorem den_sort_csr [AddCommMonoid K] (A : Csr K) (i j : Nat) : (A.sort).den i j = A.den i j := by
+  rw [Csr.den_eq, Csr.den_eq]
+  show rowDen ((A.rows.map (sortBy (·.1)))[i]?.getD []) j = _
+  rw [getD_map_rows _ rfl]
+  exact rowDen_perm (sortBy_perm _ _) j
+
+theorem sorted_sort_csr (A : Csr K) :
+    ∀ r ∈ (A.sort).rows, r.Pairwise (fun a b => a.1 ≤ b.1) := by
+  intro r hr
+  obtain ⟨r0, _, rfl⟩ := List.mem_map.mp hr
+  exact sortBy_pairwise _ r0
+
+theorem wf_sort_csr (A : Csr K) (h : A.WF = true) : (A.sort).WF = true := by
+  rw [Csr.WF_iff] at h ⊢
+  refine ⟨(List.length_map _).trans h.1, ?_⟩
+  intro r hr e he
+  obtain ⟨r0, hr0, rfl⟩ := List.mem_map.mp hr
+  exact h.2 r0 hr0 e ((sortBy_perm _ r0).mem_iff.mp he)
+
+theorem dims_sort_csc (A : Csc K) :
+    (A.sort).nRows = A.nRows ∧ (A.sort).nCols = A.nCols ∧ (A.sort).cols.length = A.cols.length :=
+  ⟨rfl, rfl, List.length_map _⟩
+
+theorem den_sort_csc [AddCommMonoid K] (A : Csc K) (i j : Nat) : (A.sort).den i j = A.den i j := by
+  rw [Csc.den_eq, Csc.den_eq]
+  show rowDen ((A.cols.map (sortBy (·.1)))[j]?.getD []) i = _
+  rw [getD_map_rows _ rfl]
+  exact rowDen_perm (sortBy_perm _ _) i
+
+theorem sorted_sort_csc (A : Csc K) :
+    ∀ r ∈ (A.sort).cols, r.Pairwise (fun a b => a.1 ≤ b.1) := by
+  intro r hr
+  obtain ⟨r0, _, rfl⟩ := List.mem_map.mp hr
+  exact sortBy_pairwise _ r0
+
+theorem wf_sort_csc (A : Csc K) (h : A.WF = true) : (A.sort).WF = true := by
+  rw [Csc.WF_iff] at h ⊢
+  refine ⟨(List.length_map _).trans h.1, ?_⟩
+  intro r hr e he
+  obtain ⟨r0, hr0, rfl⟩ := List.mem_map.mp hr
+  exact h.2 r0 hr0 e ((sortBy_perm _ r0).mem_iff.mp he)
+
+/-- the sorted COO entries are a permutation of the original ones -/
+theorem perm_sort_coo (A : Coo K) : (A.sort).ents.Perm A.ents :=
+  (sortBy_perm _ _).trans (sortBy_perm _ _)
+
+theorem dims_sort_coo (A : Coo K) : (A.sort).nRows = A.nRows ∧ (A.sort).nCols = A.nCols :=
+  ⟨rfl, rfl⟩
+
+theorem den_sort_coo [AddCommMonoid K] (A : Coo K) (i j : Nat) : (A.sort).den i j = A.den i j :=
+  denE_perm (perm_sort_coo A) i j
+
+theorem sorted_sort_coo (A : Coo K) : (A.sort).ents.Pairwise (fun a b => a.1 ≤ b.1) :=
+  sortBy_pairwise _ _
+
+theorem wf_sort_coo (A : Coo K) (h : A.WF = true) : (A.sort).WF = true := by
+  rw [Coo.WF_iff] at h ⊢
+  intro e he
+  exact h e ((perm_sort_coo A).mem_iff.mp he)
+
+/-- `sortBy` is stable: it sorts by key and elements with equal keys keep their original order
+    (stated for any relation `R` that held between earlier and later elements of the input) -/
+theorem sortBy_stable {α : Type} (key : α → Nat) (R : α → α → Prop) (l : List α)
+    (hl : l.Pairwise R) :
+    (sortBy key l).Pairwise (fun a b => key a < key b ∨ (key a = key b ∧ R a b)) :=
+  sortBy_stable_aux key R l hl
+
+/-- `Coo.sort` orders by row, then by column (both ascending): the second, stable, pass by row
+    keeps the column order produced by the first -/
+theorem sort_coo_lex (A : Coo K) :
+    (A.sort).ents.Pairwise (fun a b => a.1 < b.1 ∨ (a.1 = b.1 ∧ a.2.1 ≤ b.2.1)) :=
+  sortBy_stable (fun e : Entry K => e.1) (fun a b : Entry K => a.2.1 ≤ b.2.1) _
+    (sortBy_pairwise (fun e : Entry K => e.2.1) A.ents)
+
+/-- concrete check of the column order inside a row -/
+theorem sort_coo_lex_example :
+    (Coo.sort (⟨1, 2, [(0, 1, 2), (0, 0, 1)]⟩ : Coo Int)).ents = [(0, 0, 1), (0, 1, 2)] := by
+  decide
+
+/-- concrete check of stability: equal (row, column) keep their input order -/
+theorem sort_coo_stable_example :
+    (Coo.sort (⟨2, 2, [(1, 0, 5), (0, 1, 2), (0, 0, 1), (0, 1, 3)]⟩ : Coo Int)).ents
+      = [(0, 0, 1), (0, 1, 2), (0, 1, 3), (1, 0, 5)] := by
+  decide
+
+end Sorting
+
+/-! ## 4. `move_diag` -/
+
+section MoveDiag
+
+theorem den_moveDiag_csr [AddCommMonoid K] (A : Csr K) (i j : Nat) :
+    (A.moveDiag).den i j = A.den i j := by
+  rw [Csr.den_eq, Csr.den_eq]
+  show rowDen ((A.rows.zipIdx.map fun (row, r) => moveFront r row)[i]?.getD []) j = _
+  rw [getD_zipIdx_map_rows (fun r row => moveFront r row) (fun _ => rfl)]
+  exact rowDen_perm (moveFront_perm _ _) j
+
+theorem den_moveDiag_csc [AddCommMonoid K] (A : Csc K) (i j : Nat) :
+    (A.moveDiag).den i j = A.den i j := by
+  rw [Csc.den_eq, Csc.den_eq]
+  show rowDen ((A.cols.zipIdx.map fun (col, c) => moveFront c col)[j]?.getD []) i = _
+  rw [getD_zipIdx_map_rows (fun r row => moveFront r row) (fun _ => rfl)]
+  exact rowDen_perm (moveFront_perm _ _) i
+
+/-- the entries after COO `move_diag` are a permutation of the original ones -/
+theorem perm_moveDiag_coo (A : Coo K) : (A.moveDiag).ents.Perm A.ents := by
+  show ((rowRuns (A.sort).ents).flatMap _).Perm A.ents
+  refine (flatMap_perm_flatten _ _ diagFirst_perm).trans ?_
+  rw [rowRuns_flatten]
+  exact perm_sort_coo A
+
+theorem den_moveDiag_coo [AddCommMonoid K] (A : Coo K) (i j : Nat) :
+    (A.moveDiag).den i j = A.den i j :=
+  denE_perm (perm_moveDiag_coo A) i j
+
+theorem wf_moveDiag_coo (A : Coo K) (h : A.WF = true) : (A.moveDiag).WF = true := by
+  rw [Coo.WF_iff] at h ⊢
+  intro e he
+  exact h e ((perm_moveDiag_coo A).mem_iff.mp he)
+
+/-- a row that stores its diagonal entry has it first after `move_diag` -/
+theorem diag_first_moveDiag_csr (A : Csr K) (i : Nat) (row : List (Nat × K))
+    (h : A.rows[i]? = some row) (hd : ∃ e ∈ row, e.1 = i) :
+    ∃ e tl, (A.moveDiag).rows[i]? = some (e :: tl) ∧ e.1 = i := by
+  obtain ⟨e, tl, hm, he⟩ := moveFront_head i row hd
+  refine ⟨e, tl, ?_, he⟩
+  rw [← hm]
+  exact getElem?_zipIdx_map_rows (fun r row => moveFront r row) A.rows i row h
+
+theorem wf_moveDiag_csr (A : Csr K) (h : A.WF = true) : (A.moveDiag).WF = true := by
+  rw [Csr.WF_iff] at h ⊢
+  refine ⟨by simpa [Csr.moveDiag] using h.1, ?_⟩
+  intro r hr e he
+  obtain ⟨⟨row, k⟩, hk, rfl⟩ := List.mem_map.mp hr
+  exact h.2 row (List.mem_of_getElem? (List.mem_zipIdx_iff_getElem?.mp hk)) e
+    ((moveFront_perm k row).mem_iff.mp he)
+
+theorem wf_moveDiag_csc (A : Csc K) (h : A.WF = true) : (A.moveDiag).WF = true := by
+  rw [Csc.WF_iff] at h ⊢
+  refine ⟨by simpa [Csc.moveDiag] using h.1, ?_⟩
+  intro r hr e he
+  obtain ⟨⟨row, k⟩, hk, rfl⟩ := List.mem_map.mp hr
+  exact h.2 row (List.mem_of_getElem? (List.mem_zipIdx_iff_getElem?.mp hk)) e
+    ((moveFront_perm k row).mem_iff.mp he)
+
+end MoveDiag
+
+/-! ## 5. `remove_duplicates` -/
+
+section RemoveDuplicates
+
+/-- COO `remove_duplicates` merges, drops nothing: the dense image is unchanged (no hypothesis) -/
+theorem den_removeDuplicates_coo [AddCommMonoid K] (A : Coo K) (i j : Nat) :
+    (A.removeDuplicates).den i j = A.den i j := by
+  show denE (mergeAdjCoo (A.sort).ents) i j = _
+  rw [denE_mergeAdjCoo]
+  exact den_sort_coo A i j
+
+/-- CSR `remove_duplicates`: the stored value at `(i, j)` becomes `0` exactly when `tiny` flags
+    the sum of the values stored there. The statement is exact with NO hypothesis on `A` or on
+    `tiny` (in particular `tiny 0 = true` is not needed: where nothing is stored both sides are
+    `0`, whatever `tiny 0` is). It relies on the rows being sorted inside the routine, which makes
+    equal columns adjacent, so that each column is merged into exactly one entry. -/
+theorem den_removeDuplicates_csr [AddCommMonoid K] (tiny : K → Bool) (A : Csr K) (i j : Nat) :
+    (A.removeDuplicates tiny).den i j = if tiny (A.den i j) = true then 0 else A.den i j := by
+  rw [Csr.den_eq, Csr.den_eq]
+  show rowDen ((A.rows.map fun r =>
+    (mergeAdj (sortBy (·.1) r)).filter (fun e => !tiny e.2))[i]?.getD []) j = _
+  rw [getD_map_rows _ rfl]
+  exact rowDen_removeDup tiny _ j
+
+/-- CSC `remove_duplicates`: same statement, no hypothesis -/
+theorem den_removeDuplicates_csc [AddCommMonoid K] (tiny : K → Bool) (A : Csc K) (i j : Nat) :
+    (A.removeDuplicates tiny).den i j = if tiny (A.den i j) = true then 0 else A.den i j := by
+  rw [Csc.den_eq, Csc.den_eq]
+  show rowDen ((A.cols.map fun r =>
+    (mergeAdj (sortBy (·.1) r)).filter (fun e => !tiny e.2))[j]?.getD []) i = _
+  rw [getD_map_rows _ rfl]
+  exact rowDen_removeDup tiny _ i
+
+/-- after CSR `remove_duplicates` every row has strictly increasing columns (no duplicates left)
+    and no stored value is flagged by `tiny` -/
+theorem strict_removeDuplicates_csr [AddCommMonoid K] (tiny : K → Bool) (A : Csr K) :
+    ∀ r ∈ (A.removeDuplicates tiny).rows,
+      r.Pairwise (fun a b => a.1 < b.1) ∧ ∀ e ∈ r, tiny e.2 = false := by
+  intro r hr
+  obtain ⟨r0, _, rfl⟩ := List.mem_map.mp hr
+  refine ⟨(mergeAdj_strict _ (sortBy_pairwise _ r0)).sublist List.filter_sublist, ?_⟩
+  intro e he
+  have := (List.mem_filter.mp he).2
+  simpa using this
+
+theorem strict_removeDuplicates_csc [AddCommMonoid K] (tiny : K → Bool) (A : Csc K) :
+    ∀ r ∈ (A.removeDuplicates tiny).cols,
+      r.Pairwise (fun a b => a.1 < b.1) ∧ ∀ e ∈ r, tiny e.2 = false := by
+  intro r hr
+  obtain ⟨r0, _, rfl⟩ := List.mem_map.mp hr
+  refine ⟨(mergeAdj_strict _ (sortBy_pairwise _ r0)).sublist List.filter_sublist, ?_⟩
+  intro e he
+  have := (List.mem_filter.mp he).2
+  simpa using this
+
+/-- after COO `remove_duplicates` the entries are strictly increasing in (row, column) order -/
+theorem lex_removeDuplicates_coo [AddCommMonoid K] (A : Coo K) :
+    (A.removeDuplicates).ents.Pairwise (fun a b => a.1 < b.1 ∨ (a.1 = b.1 ∧ a.2.1 < b.2.1)) :=
+  mergeAdjCoo_strict _ (sort_coo_lex A)
+
+/-- after COO `remove_duplicates` no two entries have the same position -/
+theorem strict_removeDuplicates_coo [AddCommMonoid K] (A : Coo K) :
+    (A.removeDuplicates).ents.Pairwise (fun a b => ¬ (a.1 = b.1 ∧ a.2.1 = b.2.1)) := by
+  refine (mergeAdjCoo_strict _ (sort_coo_lex A)).imp ?_
+  intro a b hab hc
+  omega
+
+theorem wf_removeDuplicates_coo [AddCommMonoid K] (A : Coo K) (h : A.WF = true) :
+    (A.removeDuplicates).WF = true := by
+  rw [Coo.WF_iff] at h ⊢
+  intro e he
+  obtain ⟨e', he', h1, h2⟩ := mergeAdjCoo_keys _ e he
+  have := h e' ((perm_sort_coo A).mem_iff.mp he')
+  exact ⟨h1 ▸ this.1, h2 ▸ this.2⟩
+
+theorem wf_removeDuplicates_csr [AddCommMonoid K] (tiny : K → Bool) (A : Csr K)
+    (h : A.WF = true) : (A.removeDuplicates tiny).WF = true := by
+  rw [Csr.WF_iff] at h ⊢
+  refine ⟨(List.length_map _).trans h.1, all_lt_of_keys h.2 ?_⟩
+  intro r hr e he
+  obtain ⟨r0, hr0, rfl⟩ := List.mem_map.mp hr
+  obtain ⟨e', he', hk⟩ := removeDup_keys tiny r0 e he
+  exact ⟨r0, hr0, e', he', hk⟩
+
+theorem wf_removeDuplicates_csc [AddCommMonoid K] (tiny : K → Bool) (A : Csc K)
+    (h : A.WF = true) : (A.removeDuplicates tiny).WF = true := by
+  rw [Csc.WF_iff] at h ⊢
+  refine ⟨(List.length_map _).trans h.1, all_lt_of_keys h.2 ?_⟩
+  intro r hr e he
+  obtain ⟨r0, hr0, rfl⟩ := List.mem_map.mp hr
+  obtain ⟨e', he', hk⟩ := removeDup_keys tiny r0 e he
+  exact ⟨r0, hr0, e', he', hk⟩
+
+end RemoveDuplicates
+
+example : (⟨2, 3, [[(2, 1), (0, 5), (2, -1)], [(1, 4), (1, 4)]]⟩ : Csr Int).WF = true := by decide
+/-- `tiny` really drops the cancelled entry `(0, 2)`, and merges `(1, 1)` -/
+example : Csr.removeDuplicates (fun v => v == 0)
+    (⟨2, 3, [[(2, 1), (0, 5), (2, -1)], [(1, 4), (1, 4)]]⟩ : Csr Int)
+    = ⟨2, 3, [[(0, 5)], [(1, 8)]]⟩ := by decide
+
+/-! ## 6. `add`, `subtract` -/
+
+section Sums
+
+theorem dims_add [Add K] (tiny : K → Bool) (A B : Csr K) (rd : Bool) :
+    (Csr.add tiny A B rd).nRows = A.nRows ∧ (Csr.add tiny A B rd).nCols = A.nCols ∧
+    (Csr.add tiny A B rd).rows.length = A.rows.length := by
+  cases rd <;> exact ⟨rfl, rfl, (List.length_map _).trans (zipRows_length _ _)⟩
+
+/-- rows concatenated: the dense images add. The only hypothesis needed is that `B` has no more
+    stored rows than `A` (`zipRows` ranges over the rows of `A`, extra rows of `B` would be lost);
+    for well-formed matrices this is `B.nRows ≤ A.nRows`, see `den_add_wf`. -/
+theorem den_zipRows [AddCommMonoid K] (A B : Csr K) (hlen : B.rows.length ≤ A.rows.length)
+    (i j : Nat) :
+    (⟨A.nRows, A.nCols, zipRows A.rows B.rows⟩ : Csr K).den i j = A.den i j + B.den i j := by
+  rw [Csr.den_eq, Csr.den_eq, Csr.den_eq]
+  exact rowDen_zipRows A.rows B.rows hlen i j
+
+/-- `add` with duplicate removal -/
+theorem den_add [AddCommMonoid K] (tiny : K → Bool) (A B : Csr K)
+    (hlen : B.rows.length ≤ A.rows.length) (i j : Nat) :
+    (Csr.add tiny A B true).den i j
+      = (let s := A.den i j + B.den i j; if tiny s = true then 0 else s) := by
+  show (Csr.removeDuplicates tiny ⟨A.nRows, A.nCols, zipRows A.rows B.rows⟩).den i j = _
+  rw [den_removeDuplicates_csr, den_zipRows A B hlen]
+
+/-- `add_append` (no duplicate removal, rows only sorted) -/
+theorem den_add_noDup [AddCommMonoid K] (tiny : K → Bool) (A B : Csr K)
+    (hlen : B.rows.length ≤ A.rows.length) (i j : Nat) :
+    (Csr.add tiny A B false).den i j = A.den i j + B.den i j := by
+  show (Csr.sort ⟨A.nRows, A.nCols, zipRows A.rows B.rows⟩).den i j = _
+  rw [den_sort_csr, den_zipRows A B hlen]
+
+/-- the form asked for: well-formed operands of equal row count -/
+theorem den_add_wf [AddCommMonoid K] (tiny : K → Bool) (A B : Csr K)
+    (hA : A.WF = true) (hB : B.WF = true) (hn : A.nRows = B.nRows) (i j : Nat) :
+    (Csr.add tiny A B true).den i j
+      = (let s := A.den i j + B.den i j; if tiny s = true then 0 else s) ∧
+    (Csr.add tiny A B false).den i j = A.den i j + B.den i j := by
+  have hlen : B.rows.length ≤ A.rows.length := by
+    rw [(Csr.WF_iff.mp hA).1, (Csr.WF_iff.mp hB).1, hn]; exact Nat.le_refl _
+  exact ⟨den_add tiny A B hlen i j, den_add_noDup tiny A B hlen i j⟩
+
+theorem wf_add [AddCommMonoid K] (tiny : K → Bool) (A B : Csr K) (rd : Bool)
+    (hA : A.WF = true) (hB : B.WF = true) (hc : B.nCols ≤ A.nCols) :
+    (Csr.add tiny A B rd).WF = true := by
+  have hC : (⟨A.nRows, A.nCols, zipRows A.rows B.rows⟩ : Csr K).WF = true := by
+    rw [Csr.WF_iff] at hA hB ⊢
+    refine ⟨(zipRows_length _ _).trans hA.1, ?_⟩
+    intro r hr e he
+    rcases mem_zipRows hr he with ⟨r', hr', he'⟩ | ⟨r', hr', he'⟩
+    · exact hA.2 r' hr' e he'
+    · exact Nat.lt_of_lt_of_le (hB.2 r' hr' e he') hc
+  cases rd
+  · exact wf_sort_csr _ hC
+  · exact wf_removeDuplicates_csr tiny _ hC
+
+theorem den_subtract [AddCommGroup K] (tiny : K → Bool) (A B : Csr K)
+    (hlen : B.rows.length ≤ A.rows.length) (i j : Nat) :
+    (Csr.subtract tiny A B).den i j
+      = (let s := A.den i j - B.den i j; if tiny s = true then 0 else s) := by
+  have hneg : (⟨A.nRows, A.nCols,
+      zipRows A.rows (B.rows.map fun r => r.map fun (c, v) => (c, -v))⟩ : Csr K).den i j
+      = A.den i j - B.den i j := by
+    rw [Csr.den_eq, Csr.den_eq, Csr.den_eq]
+    show rowDen ((zipRows A.rows (B.rows.map fun r => r.map fun (c, v) => (c, -v)))[i]?.getD []) j
+      = _
+    rw [rowDen_zipRows _ _ (by rw [List.length_map]; exact hlen), getD_map_rows _ rfl,
+      rowDen_map_neg, sub_eq_add_neg]
+  show (Csr.removeDuplicates tiny ⟨A.nRows, A.nCols,
+      zipRows A.rows (B.rows.map fun r => r.map fun (c, v) => (c, -v))⟩).den i j = _
+  rw [den_removeDuplicates_csr, hneg]
+
+theorem den_subtract_wf [AddCommGroup K] (tiny : K → Bool) (A B : Csr K)
+    (hA : A.WF = true) (hB : B.WF = true) (hn : A.nRows = B.nRows) (i j : Nat) :
+    (Csr.subtract tiny A B).den i j
+      = (let s := A.den i j - B.den i j; if tiny s = true then 0 else s) := by
+  have hlen : B.rows.length ≤ A.rows.length := by
+    rw [(Csr.WF_iff.mp hA).1, (Csr.WF_iff.mp hB).1, hn]; exact Nat.le_refl _
+  exact den_subtract tiny A B hlen i j
+
+end Sums
+
+example : Csr.add (fun v => v == 0)
+    (⟨2, 2, [[(0, 1), (1, 2)], [(1, 3)]]⟩ : Csr Int) ⟨2, 2, [[(1, -2)], [(0, 7)]]⟩
+    = ⟨2, 2, [[(0, 1)], [(0, 7), (1, 3)]]⟩ := by decide
+/-- the row-count hypothesis cannot be dropped: a row of `B` beyond the rows of `A` is lost -/
+theorem add_drops_extra_rows :
+    (Csr.add (fun _ => false) (⟨1, 1, [[]]⟩ : Csr Int) ⟨2, 1, [[], [(0, 9)]]⟩).den 1 0 = 0 ∧
+    (⟨2, 1, [[], [(0, 9)]]⟩ : Csr Int).den 1 0 = 9 := by decide
+
+/-- the generic theorems apply to the model functions instantiated at `Int` with the instances
+    of core Lean that the executable model uses (they are the ones Mathlib's `AddCommGroup Int`
+    provides) -/
+example (tiny : Int → Bool) (A B : Csr Int) (hA : A.WF = true) (hB : B.WF = true)
+    (hn : A.nRows = B.nRows) (i j : Nat) :
+    @Csr.den Int Int.instAdd Zero.ofOfNat0 (@Csr.subtract Int Int.instAdd Int.instNegInt tiny A B) i j
+    = (let s := @Csr.den Int Int.instAdd Zero.ofOfNat0 A i j - @Csr.den Int Int.instAdd Zero.ofOfNat0 B i j
+       if tiny s = true then 0 else s) :=
+  den_subtract_wf tiny A B hA hB hn i j
+
+example (A : Coo Int) (h : A.WF = true) (i j : Nat) :
+    @Csr.den Int Int.instAdd Zero.ofOfNat0 (cooToCsr A) i j = @Coo.den Int Int.instAdd Zero.ofOfNat0 A i j :=
+  den_cooToCsr A h i j
+
+/-! ## 7. chains of operations -/
+
+section Chains
+
+theorem den_coo_csr_coo [AddCommMonoid K] (A : Coo K) (h : A.WF = true) (i j : Nat) :
+    (csrToCoo (cooToCsr A)).den i j = A.den i j := den_cooToCsr A h i j
+
+theorem den_coo_csc_coo [AddCommMonoid K] (A : Coo K) (h : A.WF = true) (i j : Nat) :
+    (cscToCoo (cooToCsc A)).den i j = A.den i j := den_cooToCsc A h i j
+
+theorem den_csr_csc_csr [AddCommMonoid K] (A : Csr K) (h : A.WF = true) (i j : Nat) :
+    (cscToCsr (csrToCsc A)).den i j = A.den i j := by
+  rw [den_cscToCsr _ (wf_csrToCsc A h), den_csrToCsc A h]
+
+theorem den_csc_csr_csc [AddCommMonoid K] (A : Csc K) (h : A.WF = true) (i j : Nat) :
+    (csrToCsc (cscToCsr A)).den i j = A.den i j := by
+  rw [den_csrToCsc _ (wf_cscToCsr A h), den_cscToCsr A h]
+
+/-- COO → CSC → CSR → COO -/
+theorem den_coo_csc_csr_coo [AddCommMonoid K] (A : Coo K) (h : A.WF = true) (i j : Nat) :
+    (csrToCoo (cscToCsr (cooToCsc A))).den i j = A.den i j := by
+  rw [den_csrToCoo, den_cscToCsr _ (wf_cooToCsc A h), den_cooToCsc A h]
+
+theorem den_transpose_transpose_coo [AddCommMonoid K] (A : Coo K) (i j : Nat) :
+    (A.transpose.transpose).den i j = A.den i j := by
+  rw [den_transpose_coo, den_transpose_coo]
+
+theorem den_transpose_transpose_csr [AddCommMonoid K] (A : Csr K) (h : A.WF = true) (i j : Nat) :
+    (A.transpose.transpose).den i j = A.den i j := by
+  rw [den_transpose_csr _ (wf_transpose_csr A h), den_transpose_csr A h]
+
+theorem den_transpose_transpose_csc [AddCommMonoid K] (A : Csc K) (h : A.WF = true) (i j : Nat) :
+    (A.transpose.transpose).den i j = A.den i j := by
+  rw [den_transpose_csc _ (wf_transpose_csc A h), den_transpose_csc A h]
+
+/-- the CSR transpose agrees with transposing in COO form -/
+theorem den_transpose_csr_via_coo [AddCommMonoid K] (A : Csr K) (h : A.WF = true) (i j : Nat) :
+    (A.transpose).den i j = ((csrToCoo A).transpose).den i j := by
+  rw [den_transpose_csr A h, den_transpose_coo, den_csrToCoo]
+
+/-- the usual assembly pipeline: COO → CSR, `remove_duplicates`, `sort`, `move_diag` -/
+theorem den_assemble [AddCommMonoid K] (tiny : K → Bool) (A : Coo K) (h : A.WF = true)
+    (i j : Nat) :
+    (((cooToCsr A).removeDuplicates tiny).sort.moveDiag).den i j
+      = if tiny (A.den i j) = true then 0 else A.den i j := by
+  rw [den_moveDiag_csr, den_sort_csr, den_removeDuplicates_csr, den_cooToCsr A h]
+
+theorem wf_assemble [AddCommMonoid K] (tiny : K → Bool) (A : Coo K) (h : A.WF = true) :
+    (((cooToCsr A).removeDuplicates tiny).sort.moveDiag).WF = true :=
+  wf_moveDiag_csr _ (wf_sort_csr _ (wf_removeDuplicates_csr tiny _ (wf_cooToCsr A h)))
+
+end Chains
+
+/- OPEN (not proved): none. Every target statement of C07 is proved above.
+   Remarks for the audit:
+   * `den_removeDuplicates_csr/csc`, `den_sort_*`, `den_moveDiag_*`, `den_removeDuplicates_coo`,
+     `den_transpose_coo` need no hypothesis at all;
+   * `den_add`, `den_add_noDup`, `den_subtract` need only `B.rows.length ≤ A.rows.length`
+     (necessary: `add_drops_extra_rows`); `den_add_wf`, `den_subtract_wf` are the `WF` forms;
+   * the bucket-based conversions and the CSR/CSC transposes need `WF`
+     (necessary: `cooToCsr_drops_out_of_range`);
+   * `sortBy` is stable (`sortBy_stable`), hence `Coo.sort` is the (row, column) lexicographic
+     order (`sort_coo_lex`, `sort_coo_lex_example`, `sort_coo_stable_example`) and
+     `Coo.removeDuplicates` leaves entries strictly increasing in that order
+     (`lex_removeDuplicates_coo`, `strict_removeDuplicates_coo`). -/
 
 end Raptor.C07
